@@ -466,6 +466,12 @@ def handle (op : String) (j : Json) : R Json := do
     let specs ← jcalls.mapM specJson
     pure (Json.mkObj [("outcomes", jList (os.map outcomeToJson)), ("state", stateToJson s),
       ("specs", jList specs)])
+  | "retcheck" =>
+    -- a kept result read again later: does it still describe what this call configured?
+    let c ← callOfJson j
+    let opts ← field j "opts" >>= dictOfJson
+    let ret ← (← arr j "returned").mapM fieldOfJson
+    pure (Json.mkObj [("returned", Json.bool (returnedOK c opts ret))])
   | "pack" =>
     let size ← nat j "size"
     let fs ← (← arr j "fields").mapM fieldOfJson
